@@ -43,6 +43,14 @@ func mkShape(class string, k int) shapeSpec {
 		// a struct whose first field is a struct that embeds ecs.Relation: not a relation component
 		inner := reflect.StructOf([]reflect.StructField{rel, fld("V", i64)})
 		return shapeSpec{class, false, reflect.StructOf([]reflect.StructField{fld("I", inner)}), true}
+	case "rel-foreign":
+		// a foreign type that is merely CALLED Relation, embedded as first field: not a relation component
+		fr := reflect.StructField{Name: "Relation", Type: reflect.TypeOf(Relation{}), Anonymous: true}
+		return shapeSpec{class, false, reflect.StructOf([]reflect.StructField{fr, fld("V", i64)}), true}
+	case "rel-pointer":
+		// *ecs.Relation embedded as first field: not a relation component
+		pr := reflect.StructField{Name: "Relation", Type: reflect.PointerTo(relationType), Anonymous: true}
+		return shapeSpec{class, false, reflect.StructOf([]reflect.StructField{pr, fld("V", i64)}), true}
 	case "array":
 		return shapeSpec{class, false, reflect.ArrayOf(k+1, reflect.TypeOf(int8(0))), true}
 	case "int-array":
@@ -53,7 +61,10 @@ func mkShape(class string, k int) shapeSpec {
 	panic("unknown shape " + class)
 }
 
-var shapeClasses = []string{"plain", "empty", "rel-first", "rel-only", "rel-later", "rel-nested", "array", "int-array", "pointer"}
+var shapeClasses = []string{"plain", "empty", "rel-first", "rel-only", "rel-later", "rel-nested", "rel-foreign", "rel-pointer", "array", "int-array", "pointer"}
+
+// Relation is a harness type that shares its name (not its identity) with ecs.Relation.
+type Relation struct{ Kind int32 }
 
 func cmdRegistry(args []string) {
 	fs := flag.NewFlagSet("registry", flag.ExitOnError)
